@@ -4,14 +4,22 @@ From Tickit Require Import OutBufDefs OutBufSpec.
 Import ListNotations.
 Local Open Scope Z_scope.
 
-Definition has_sink (s : obuf) : bool := has_func s || has_fd s.
-
 (* the representation invariant of the output buffer: no buffer <-> cap = 0 and then
    nothing is pending; with a buffer, it is never full between calls *)
 Definition inv (s : obuf) : Prop :=
   0 <= cap s /\ (cap s = 0 -> pending s = []) /\ (0 < cap s -> zlen (pending s) < cap s).
 
-Definition chunk_ok (cp : Z) (c : chunk) : Prop := 0 < zlen c <= cp.
+Definition chunk_ok (cp : Z) (tc : tchunk) : Prop := 0 < zlen (snd tc) <= cp.
+
+(* the bytes of a list of tagged chunks, whatever their sinks *)
+Definition bytes (d : list tchunk) : list byte := concat (map snd d).
+
+(* every chunk went to [a] (so the list is empty when there is no active sink) *)
+Definition tagged (a : option sink) (d : list tchunk) : Prop := Forall (fun tc => Some (fst tc) = a) d.
+
+(* what is pending, seen from sink k: it will be delivered to the active sink *)
+Definition pend_to (k : sink) (s : obuf) : list byte :=
+  if osink_eqb (active s) (Some k) then pending s else [].
 
 (* ---------------- small list facts ---------------- *)
 
@@ -27,45 +35,73 @@ Proof. unfold zlen. destruct a; cbn [length]; split; intros H; try reflexivity; 
 Lemma zlen_firstn {A} (n : nat) (l : list A) : (n <= length l)%nat -> zlen (firstn n l) = Z.of_nat n.
 Proof. intros H. unfold zlen. rewrite firstn_length_le by exact H. reflexivity. Qed.
 
-Lemma concat_rev_app (d1 d2 : list chunk) : concat (d1 ++ d2) = concat d1 ++ concat d2.
-Proof. apply concat_app. Qed.
+Lemma bytes_app d1 d2 : bytes (d1 ++ d2) = bytes d1 ++ bytes d2.
+Proof. unfold bytes. rewrite map_app. apply concat_app. Qed.
+
+Lemma sink_eqb_eq a b : sink_eqb a b = true <-> a = b.
+Proof. destruct a, b; cbn; split; intros H; try reflexivity; discriminate. Qed.
+
+Lemma osink_eqb_eq a b : osink_eqb a b = true <-> a = b.
+Proof.
+  destruct a as [x|], b as [y|]; cbn; try (split; intros H; try reflexivity; discriminate).
+  rewrite sink_eqb_eq. split; [intros ->; reflexivity|intros [= ->]; reflexivity].
+Qed.
+
+Lemma osink_eqb_refl a : osink_eqb a a = true.
+Proof. apply osink_eqb_eq; reflexivity. Qed.
+
+Lemma to_sink_app k d1 d2 : to_sink k (d1 ++ d2) = to_sink k d1 ++ to_sink k d2.
+Proof. unfold to_sink. rewrite filter_app, map_app. apply concat_app. Qed.
+
+Lemma to_sink_nil k : to_sink k [] = [].
+Proof. reflexivity. Qed.
+
+(* chunks all tagged with the active sink: sink k sees all their bytes or none *)
+Lemma to_sink_tagged k a d : tagged a d ->
+  to_sink k d = if osink_eqb a (Some k) then bytes d else [].
+Proof.
+  unfold tagged. induction d as [|[t c] d IH]; intros H.
+  - destruct (osink_eqb a (Some k)); reflexivity.
+  - inversion H as [|? ? Ht Hd]; subst. cbn [fst] in *. specialize (IH Hd).
+    unfold to_sink, bytes in *. cbn [filter map fst snd concat].
+    cbn [osink_eqb] in *. destruct (sink_eqb t k); cbn [map snd concat]; rewrite IH; reflexivity.
+Qed.
+
+Lemma tagged_app a d1 d2 : tagged a d1 -> tagged a d2 -> tagged a (d1 ++ d2).
+Proof. unfold tagged. intros H1 H2. apply Forall_app. split; assumption. Qed.
+
+Lemma active_eq s : active s = active_of (has_func s) (has_fd s).
+Proof. reflexivity. Qed.
 
 (* ---------------- deliver / flush ---------------- *)
 
-Lemma deliver_sink s c : has_sink s = true -> c <> [] -> deliver s c = [c].
+Lemma deliver_props s c :
+  tagged (active s) (deliver s c) /\
+  (active s <> None -> bytes (deliver s c) = c) /\
+  (deliver s c = [] \/ exists t, deliver s c = [(t, c)]).
 Proof.
-  unfold has_sink, deliver. intros Hs Hc.
-  destruct (has_func s) eqn:Ef; [reflexivity|].
-  destruct (has_fd s) eqn:Ed; [|discriminate].
-  destruct c; [contradiction|reflexivity].
-Qed.
-
-Lemma deliver_concat s c : has_sink s = true -> concat (deliver s c) = c.
-Proof.
-  unfold has_sink, deliver. intros Hs.
-  destruct (has_func s) eqn:Ef; [cbn; apply app_nil_r|].
-  destruct (has_fd s) eqn:Ed; [|discriminate].
-  destruct c; [reflexivity|cbn; rewrite app_nil_r; reflexivity].
-Qed.
-
-Lemma deliver_subset s c : deliver s c = [] \/ deliver s c = [c].
-Proof.
-  unfold deliver. destruct (has_func s); [right; reflexivity|].
-  destruct (has_fd s); [|left; reflexivity].
-  destruct c; [left|right]; reflexivity.
+  unfold deliver, active, tagged, bytes.
+  destruct (has_func s).
+  - split; [repeat constructor|]. split; [intros _; cbn; apply app_nil_r|right; eexists; reflexivity].
+  - destruct (has_fd s).
+    + destruct c as [|b r].
+      * split; [constructor|]. split; [reflexivity|left; reflexivity].
+      * split; [repeat constructor|]. split; [intros _; cbn; rewrite app_nil_r; reflexivity|right; eexists; reflexivity].
+    + split; [constructor|]. split; [intros H; contradiction H; reflexivity|left; reflexivity].
 Qed.
 
 Lemma flush_props s s' d : flush s = (s', d) ->
   pending s' = [] /\ cap s' = cap s /\ has_func s' = has_func s /\ has_fd s' = has_fd s /\
-  (d = [] \/ d = [pending s] /\ pending s <> []) /\
-  (has_sink s = true -> concat d = pending s).
+  (d = [] \/ (exists t, d = [(t, pending s)]) /\ pending s <> []) /\
+  tagged (active s) d /\
+  (active s <> None -> bytes d = pending s).
 Proof.
   unfold flush. destruct (pending s) as [|b r] eqn:Ep.
-  - intros [= <- <-]. rewrite Ep. repeat split; auto.
+  - intros [= <- <-]. rewrite Ep. repeat split; auto. constructor.
   - intros [= <- <-]. cbn [with_pending pending cap has_func has_fd].
+    destruct (deliver_props s (b :: r)) as (Ht & Hb & Hd).
     repeat split; auto.
-    + destruct (deliver_subset s (b :: r)) as [H|H]; [left; exact H|right; split; [exact H|discriminate]].
-    + intros Hs. apply deliver_concat; exact Hs.
+    destruct Hd as [H|H]; [left; exact H|right; split; [exact H|discriminate]].
 Qed.
 
 (* ---------------- the chunk loop ---------------- *)
@@ -82,21 +118,22 @@ Lemma write_loop_unfold fuel s out str : str <> [] ->
 Proof. destruct str; [contradiction|reflexivity]. Qed.
 
 (* With 0 <= pending < cap, [length str] units of fuel suffice (each iteration consumes
-   at least one byte); the state keeps the invariant; with a sink nothing is lost. *)
+   at least one byte); the state keeps the invariant; every chunk goes to the active sink;
+   with an active sink nothing is lost. *)
 Lemma write_loop_spec : forall fuel str s out,
   0 < cap s -> zlen (pending s) < cap s -> (length str <= fuel)%nat ->
   exists s' d,
     write_loop fuel s out str = Ok (s', rev d ++ out) /\
     cap s' = cap s /\ has_func s' = has_func s /\ has_fd s' = has_fd s /\
     zlen (pending s') < cap s /\
-    Forall (chunk_ok (cap s)) d /\
-    (has_sink s = true -> concat d ++ pending s' = pending s ++ str).
+    Forall (chunk_ok (cap s)) d /\ tagged (active s) d /\
+    (active s <> None -> bytes d ++ pending s' = pending s ++ str).
 Proof.
   induction fuel as [|fuel IH]; intros str s out Hcap Hpend Hfuel.
   - destruct str as [|b r]; [|cbn [length] in Hfuel; lia].
-    exists s, []. cbn. repeat split; auto. intros _. rewrite app_nil_r; reflexivity.
+    exists s, []. cbn. repeat split; auto; try constructor. intros _. rewrite app_nil_r; reflexivity.
   - destruct str as [|b r].
-    { exists s, []. cbn. repeat split; auto. intros _. rewrite app_nil_r; reflexivity. }
+    { exists s, []. cbn. repeat split; auto; try constructor. intros _. rewrite app_nil_r; reflexivity. }
     rewrite write_loop_unfold by discriminate.
     remember (b :: r) as str eqn:Estr.
     assert (Hlen : 0 < zlen str) by (subst str; unfold zlen; cbn [length]; lia).
@@ -114,27 +151,31 @@ Proof.
     destruct (zlen (pending s ++ firstn n str) >=? cap s) eqn:Efull.
     + (* buffer full: flush, go on with an empty buffer *)
       destruct (flush (with_pending s (pending s ++ firstn n str))) as [s2 dl] eqn:Efl.
-      apply flush_props in Efl. cbn [with_pending pending cap has_func has_fd] in Efl.
-      destruct Efl as (Hp2 & Hc2 & Hf2 & Hd2 & Hdl & Hcat).
-      destruct (IH (skipn n str) s2 (rev_append dl out)) as (s' & d & Hrun & Hc' & Hf' & Hd' & Hp' & Hall & Hstream).
+      apply flush_props in Efl.
+      change (active (with_pending s (pending s ++ firstn n str))) with (active s) in Efl.
+      cbn [with_pending pending cap has_func has_fd] in Efl.
+      destruct Efl as (Hp2 & Hc2 & Hf2 & Hd2 & Hdl & Htag & Hcat).
+      assert (Hact2 : active s2 = active s) by (unfold active; rewrite Hf2, Hd2; reflexivity).
+      destruct (IH (skipn n str) s2 (rev_append dl out)) as (s' & d & Hrun & Hc' & Hf' & Hd' & Hp' & Hall & Htag' & Hstream).
       { lia. } { rewrite Hp2. unfold zlen; cbn [length]. lia. } { exact Hskip. }
       exists s', (dl ++ d). rewrite Hrun. split.
       { rewrite rev_append_rev, rev_app_distr, app_assoc. reflexivity. }
-      rewrite Hc2 in *. split; [exact Hc'|]. split; [congruence|]. split; [congruence|].
+      rewrite Hc2, Hact2 in *. split; [exact Hc'|]. split; [congruence|]. split; [congruence|].
       split; [exact Hp'|]. split.
       { apply Forall_app. split; [|exact Hall].
-        destruct Hdl as [->|[-> Hne]]; [constructor|].
-        constructor; [|constructor]. unfold chunk_ok. lia. }
-      intros Hs. rewrite concat_app, <- app_assoc, Hstream.
-      * rewrite Hp2, Hcat by exact Hs. cbn [app]. rewrite <- app_assoc, firstn_skipn. reflexivity.
-      * unfold has_sink in *. rewrite Hf2, Hd2. exact Hs.
+        destruct Hdl as [->|[[t ->] Hne]]; [constructor|].
+        constructor; [|constructor]. unfold chunk_ok. cbn [snd]. lia. }
+      split; [apply tagged_app; assumption|].
+      intros Ha. rewrite bytes_app, <- app_assoc, (Hstream Ha).
+      rewrite Hp2, (Hcat Ha). cbn [app]. rewrite <- app_assoc, firstn_skipn. reflexivity.
     + (* everything fitted *)
       destruct (IH (skipn n str) (with_pending s (pending s ++ firstn n str)) out)
-        as (s' & d & Hrun & Hc' & Hf' & Hd' & Hp' & Hall & Hstream).
+        as (s' & d & Hrun & Hc' & Hf' & Hd' & Hp' & Hall & Htag' & Hstream).
       { exact Hcap. } { cbn [with_pending pending cap]. lia. } { exact Hskip. }
+      change (active (with_pending s (pending s ++ firstn n str))) with (active s) in *.
       cbn [with_pending pending cap has_func has_fd] in *.
       exists s', d. rewrite Hrun. repeat split; auto.
-      intros Hs. rewrite Hstream by exact Hs. rewrite <- app_assoc, firstn_skipn. reflexivity.
+      intros Ha. rewrite (Hstream Ha). rewrite <- app_assoc, firstn_skipn. reflexivity.
 Qed.
 
 (* ---------------- requested bytes ---------------- *)
@@ -150,13 +191,6 @@ Qed.
 Lemma asked_write mem len : asked (OWrite mem len) = req_bytes mem len.
 Proof.
   unfold asked, req_bytes. destruct (len =? 0); [apply until_nul_strlen|reflexivity].
-Qed.
-
-Lemma until_nul_app_nul f : Forall (fun b => b <> 0) f -> until_nul (f ++ [0]) = Some f.
-Proof.
-  induction f as [|b r IH]; intros H; [reflexivity|].
-  inversion H as [|? ? Hb Hr]; subst. cbn [app until_nul].
-  destruct (b =? 0) eqn:E; [lia|]. rewrite IH by exact Hr. reflexivity.
 Qed.
 
 (* write_strf asks for exactly the formatted bytes, empty or not, NULs inside or not *)
@@ -176,80 +210,86 @@ Lemma write_str_spec s mem len data : inv s -> req_bytes mem len = Some data ->
   exists s' d,
     write_str s mem len = Ok (s', d) /\ inv s' /\
     cap s' = cap s /\ has_func s' = has_func s /\ has_fd s' = has_fd s /\
-    (0 < cap s -> Forall (chunk_ok (cap s)) d) /\
-    (has_sink s = true -> concat d ++ pending s' = pending s ++ data).
+    (0 < cap s -> Forall (chunk_ok (cap s)) d) /\ tagged (active s) d /\
+    (active s <> None -> bytes d ++ pending s' = pending s ++ data) /\
+    (data = [] -> pending s' = pending s).
 Proof.
   intros (Hc0 & Hnil & Hlt) Hreq. unfold write_str. rewrite Hreq.
   destruct (0 <? cap s) eqn:Ecap.
-  - destruct (write_loop_spec (S (length data)) data s []) as (s' & d & Hrun & Hc' & Hf' & Hd' & Hp' & Hall & Hstream).
+  - destruct (write_loop_spec (S (length data)) data s []) as (s' & d & Hrun & Hc' & Hf' & Hd' & Hp' & Hall & Htag & Hstream).
     { lia. } { apply Hlt; lia. } { lia. }
-    rewrite Hrun. exists s', d. rewrite app_nil_r, rev_involutive.
+    exists s', d. rewrite Hrun, app_nil_r, rev_involutive.
     split; [reflexivity|]. split.
     { unfold inv. rewrite Hc'. split; [lia|]. split; [lia|]. intros _; exact Hp'. }
     repeat split; auto.
-  - exists s, (deliver s data). split; [reflexivity|]. split; [unfold inv; auto|].
+    intros ->. cbn in Hrun. injection Hrun as <- _. reflexivity.
+  - destruct (deliver_props s data) as (Ht & Hb & _).
+    exists s, (deliver s data). split; [reflexivity|]. split; [unfold inv; auto|].
     repeat split; auto; [lia|].
-    intros Hs. rewrite Hnil by lia. rewrite deliver_concat by exact Hs. rewrite app_nil_r. reflexivity.
+    intros Ha. rewrite Hnil by lia. rewrite (Hb Ha). rewrite app_nil_r. reflexivity.
 Qed.
 
-Definition same_sinks (s s' : obuf) : Prop :=
-  (has_func s = true -> has_func s' = true) /\ (has_fd s = true -> has_fd s' = true).
+(* requests and flush: configuration unchanged, chunks to the active sink, nothing lost *)
+Definition io_op (o : op) : bool :=
+  match o with OWrite _ _ | OWritef _ | OFlush => true | _ => false end.
 
-Lemma step_spec s o bs : inv s -> asked o = Some bs ->
+Lemma step_io s o bs : inv s -> io_op o = true -> asked o = Some bs ->
   exists s' d,
-    step s o = Ok (s', d) /\ inv s' /\ (has_sink s = true -> has_sink s' = true) /\
-    match o with
-    | OSetBuf n => cap s' = n /\ pending s' = [] /\ d = []
-    | _ => cap s' = cap s /\
-           (0 < cap s -> Forall (chunk_ok (cap s)) d) /\
-           (has_sink s = true -> concat d ++ pending s' = pending s ++ bs)
-    end.
+    step s o = Ok (s', d) /\ inv s' /\
+    cap s' = cap s /\ has_func s' = has_func s /\ has_fd s' = has_fd s /\
+    (0 < cap s -> Forall (chunk_ok (cap s)) d) /\ tagged (active s) d /\
+    (active s <> None -> bytes d ++ pending s' = pending s ++ bs) /\
+    (bs = [] -> active s = None -> pending s' = pending s \/ o = OFlush).
 Proof.
-  intros Hinv Hask. destruct o as [mem len|f| |n| |]; cbn [step].
+  intros Hinv Hio Hask. destruct o as [mem len|f| |n|b|b]; try discriminate; cbn [step].
   - rewrite asked_write in Hask.
-    destruct (write_str_spec s mem len bs Hinv Hask) as (s' & d & Hw & Hi & Hc & Hf & Hd & Hall & Hst).
-    exists s', d. split; [exact Hw|]. split; [exact Hi|].
-    split; [unfold has_sink; rewrite Hf, Hd; auto|]. auto.
+    destruct (write_str_spec s mem len bs Hinv Hask) as (s' & d & Hw & Hi & Hc & Hf & Hd & Hall & Htag & Hst & He).
+    exists s', d. split; [exact Hw|]. split; [exact Hi|]. do 6 (split; [assumption|]). intros Hb _; left; auto.
   - cbn [asked] in Hask. injection Hask as <-. unfold write_strf.
-    destruct (write_str_spec s (f ++ [0]) (zlen f) f Hinv (req_bytes_strf f)) as (s' & d & Hw & Hi & Hc & Hf & Hd & Hall & Hst).
-    exists s', d. split; [exact Hw|]. split; [exact Hi|].
-    split; [unfold has_sink; rewrite Hf, Hd; auto|]. auto.
+    destruct (write_str_spec s (f ++ [0]) (zlen f) f Hinv (req_bytes_strf f)) as (s' & d & Hw & Hi & Hc & Hf & Hd & Hall & Htag & Hst & He).
+    exists s', d. split; [exact Hw|]. split; [exact Hi|]. do 6 (split; [assumption|]). intros Hb _; left; auto.
   - cbn [asked] in Hask. injection Hask as <-.
-    destruct (flush s) as [s' d] eqn:Efl. pose proof (flush_props _ _ _ Efl) as (Hp & Hc & Hf & Hd & Hdl & Hcat).
+    destruct (flush s) as [s' d] eqn:Efl. pose proof (flush_props _ _ _ Efl) as (Hp & Hc & Hf & Hd & Hdl & Htag & Hcat).
     exists s', d. split; [reflexivity|]. destruct Hinv as (Hc0 & Hnil & Hlt). split.
     { unfold inv. rewrite Hc, Hp. repeat split; auto; intros; unfold zlen; cbn [length]; lia. }
-    split. { unfold has_sink. rewrite Hf, Hd. auto. }
-    split; [exact Hc|]. split.
-    + intros Hpos. destruct Hdl as [->|[-> Hne]]; [constructor|].
-      constructor; [|constructor]. unfold chunk_ok. specialize (Hlt Hpos).
+    repeat split; auto.
+    + intros Hpos. destruct Hdl as [->|[[t ->] Hne]]; [constructor|].
+      constructor; [|constructor]. unfold chunk_ok. cbn [snd]. specialize (Hlt Hpos).
       assert (zlen (pending s) <> 0) by (rewrite zlen_nil_iff; exact Hne).
       pose proof (zlen_nonneg (pending s)). lia.
-    + intros Hs. rewrite Hp, !app_nil_r. apply Hcat; exact Hs.
-  - cbn [asked] in Hask. destruct (n <? 0) eqn:En; [discriminate|].
-    exists (set_output_buffer s n), []. split; [reflexivity|].
-    unfold set_output_buffer, inv, has_sink; cbn [cap pending has_func has_fd].
-    repeat split; auto; try lia; intros; unfold zlen; cbn [length]; lia.
-  - cbn [asked] in Hask. injection Hask as <-.
-    exists (set_output_func s), []. split; [reflexivity|].
-    unfold set_output_func, inv, has_sink; cbn [cap pending has_func has_fd].
-    destruct Hinv as (Hc0 & Hnil & Hlt). repeat split; auto. intros _. cbn [concat app]. rewrite app_nil_r; reflexivity.
-  - cbn [asked] in Hask. injection Hask as <-.
-    exists (set_output_fd s), []. split; [reflexivity|].
-    unfold set_output_fd, inv, has_sink; cbn [cap pending has_func has_fd].
-    destruct Hinv as (Hc0 & Hnil & Hlt). repeat split; auto.
-    + intros _. apply orb_true_r.
-    + intros _. cbn [concat app]. rewrite app_nil_r; reflexivity.
+    + intros Ha. rewrite Hp, !app_nil_r. apply Hcat; exact Ha.
+Qed.
+
+(* reconfigurations deliver nothing *)
+Lemma step_config s o : inv s -> io_op o = false -> asked o <> None ->
+  exists s', step s o = Ok (s', []) /\ inv s' /\
+    match o with
+    | OSetBuf n => s' = set_output_buffer s n
+    | OSetFunc b => s' = set_output_func s b
+    | OSetFd b => s' = set_output_fd s b
+    | _ => False
+    end.
+Proof.
+  intros Hinv Hio Hask. destruct o as [mem len|f| |n|b|b]; try discriminate; cbn [step].
+  - cbn [asked] in Hask. destruct (n <? 0) eqn:En; [contradiction Hask; reflexivity|].
+    exists (set_output_buffer s n). split; [reflexivity|]. split; [|reflexivity].
+    unfold set_output_buffer, inv; cbn [cap pending]. repeat split; auto; try lia; intros; unfold zlen; cbn [length]; lia.
+  - exists (set_output_func s b). split; [reflexivity|]. split; [|reflexivity]. exact Hinv.
+  - exists (set_output_fd s b). split; [reflexivity|]. split; [|reflexivity]. exact Hinv.
 Qed.
 
 (* a malformed request (reads outside the caller's string, negative size) is a Fault,
    never a normal result *)
 Lemma step_fault s o : asked o = None -> step s o = Fault.
 Proof.
-  destruct o as [mem len|f| |n| |]; cbn [step asked]; try discriminate.
+  destruct o as [mem len|f| |n|b|b]; cbn [step asked]; try discriminate.
   - intros H. change (asked (OWrite mem len) = None) in H. rewrite asked_write in H.
     unfold write_str. rewrite H. reflexivity.
   - destruct (n <? 0); [reflexivity|discriminate].
 Qed.
+
+Lemma io_or_config o : io_op o = true \/ io_op o = false.
+Proof. destruct (io_op o); auto. Qed.
 
 (* ---------------- C11_terminates ---------------- *)
 
@@ -258,8 +298,12 @@ Theorem terminates s o : inv s ->
   step s o <> OutOfFuel.
 Proof.
   intros Hinv. destruct (asked o) as [bs|] eqn:Ea.
-  - destruct (step_spec s o bs Hinv Ea) as (s' & d & Hst & Hi & _).
-    split; [intros _; exists s', d; auto|]. rewrite Hst; discriminate.
+  - assert (H : exists s' d, step s o = Ok (s', d) /\ inv s').
+    { destruct (io_or_config o) as [Hio|Hio].
+      - destruct (step_io s o bs Hinv Hio Ea) as (s' & d & Hst & Hi & _). exists s', d. auto.
+      - destruct (step_config s o Hinv Hio) as (s' & Hst & Hi & _); [rewrite Ea; discriminate|].
+        exists s', []. auto. }
+    split; [intros _; exact H|]. destruct H as (s' & d & Hst & _). rewrite Hst; discriminate.
   - split; [intros H; contradiction|]. rewrite step_fault by exact Ea. discriminate.
 Qed.
 
@@ -274,19 +318,24 @@ Qed.
 (* ---------------- C11_flush_drains / C11_chunk_bound ---------------- *)
 
 Theorem flush_drains s s' d : step s OFlush = Ok (s', d) ->
-  pending s' = [] /\ (has_sink s = true -> concat d = pending s).
+  pending s' = [] /\ tagged (active s) d /\ forall k, to_sink k d = pend_to k s.
 Proof.
-  cbn [step]. intros [= H]. apply flush_props in H. tauto.
+  cbn [step]. intros [= H]. apply flush_props in H.
+  destruct H as (Hp & _ & _ & _ & Hdl & Htag & Hcat). split; [exact Hp|]. split; [exact Htag|].
+  intros k. rewrite (to_sink_tagged k _ _ Htag). unfold pend_to.
+  destruct (osink_eqb (active s) (Some k)) eqn:E; [|reflexivity].
+  apply Hcat. apply osink_eqb_eq in E. rewrite E. discriminate.
 Qed.
 
 Theorem chunk_bound s o s' d : inv s -> step s o = Ok (s', d) -> 0 < cap s ->
-  Forall (chunk_ok (cap s)) d.
+  Forall (chunk_ok (cap s)) d /\ tagged (active s) d.
 Proof.
   intros Hinv Hst Hpos. destruct (asked o) as [bs|] eqn:Ea.
-  - destruct (step_spec s o bs Hinv Ea) as (s1 & d1 & Hst1 & _ & _ & Hm).
-    rewrite Hst in Hst1. injection Hst1 as <- <-.
-    destruct o; try (destruct Hm as (_ & Hall & _); apply Hall; exact Hpos).
-    destruct Hm as (_ & _ & ->). constructor.
+  - destruct (io_or_config o) as [Hio|Hio].
+    + destruct (step_io s o bs Hinv Hio Ea) as (s1 & d1 & Hst1 & _ & _ & _ & _ & Hall & Htag & _).
+      rewrite Hst in Hst1. injection Hst1 as <- <-. auto.
+    + destruct (step_config s o Hinv Hio) as (s1 & Hst1 & _); [rewrite Ea; discriminate|].
+      rewrite Hst in Hst1. injection Hst1 as _ Hd0. subst d. split; constructor.
   - rewrite step_fault in Hst by exact Ea. discriminate.
 Qed.
 
@@ -303,101 +352,171 @@ Proof.
     destruct (run s1 r) as [[s2 ds]| |] eqn:Er; try discriminate. injection Hrun as <- <-.
     cbn [concat]. apply Forall_app. split; [apply (chunk_bound s o s1); assumption|].
     destruct (asked o) as [bs|] eqn:Ea; [|rewrite step_fault in Est by exact Ea; discriminate].
-    destruct (step_spec s o bs Hinv Ea) as (s1' & d1 & Hst1 & Hi1 & _ & Hm).
-    rewrite Est in Hst1. injection Hst1 as <- <-.
-    assert (Hc : cap s1 = cap s /\ no_resize r).
-    { destruct o; cbn [no_resize] in Hnr; try contradiction; destruct Hm as (Hc & _); auto. }
-    destruct Hc as (Hc & Hnr'). rewrite <- Hc. eapply IH; eauto. lia.
+    assert (Hc : inv s1 /\ cap s1 = cap s /\ no_resize r).
+    { destruct (io_or_config o) as [Hio|Hio].
+      - destruct (step_io s o bs Hinv Hio Ea) as (s1' & d1 & Hst1 & Hi1 & Hc1 & _).
+        rewrite Est in Hst1. injection Hst1 as <- <-.
+        destruct o; try discriminate; cbn [no_resize] in Hnr; auto.
+      - destruct (step_config s o Hinv Hio) as (s1' & Hst1 & Hi1 & Hm); [rewrite Ea; discriminate|].
+        rewrite Est in Hst1. injection Hst1 as <- Hd0; subst d.
+        destruct o; try contradiction; cbn [no_resize] in Hnr; try contradiction; subst s1; auto. }
+    destruct Hc as (Hi1 & Hc & Hnr'). rewrite <- Hc. eapply IH; eauto. lia.
 Qed.
 
-(* ---------------- C11_stream ---------------- *)
+(* ---------------- C11_stream, per sink ---------------- *)
 
-Theorem stream_run : forall ops s s' outs, inv s -> has_sink s = true ->
-  sized_when_drained s ops -> run s ops = Ok (s', outs) ->
-  exists bs, stream ops = Some bs /\ concat (concat outs) ++ pending s' = pending s ++ bs /\ inv s'.
+Lemma is_active_eq k s : is_active k (has_func s) (has_fd s) = osink_eqb (active s) (Some k).
+Proof. reflexivity. Qed.
+
+Theorem stream_run : forall ops s s' outs, inv s ->
+  config_when_drained s ops -> run s ops = Ok (s', outs) ->
+  inv s' /\ forall k, exists bs, stream_to k (has_func s) (has_fd s) ops = Some bs /\
+    to_sink k (concat outs) ++ pend_to k s' = pend_to k s ++ bs.
 Proof.
-  induction ops as [|o r IH]; intros s s' outs Hinv Hs Hsz Hrun.
-  - cbn in Hrun. injection Hrun as <- <-. exists []. cbn. rewrite app_nil_r. auto.
+  induction ops as [|o r IH]; intros s s' outs Hinv Hsz Hrun.
+  - cbn in Hrun. injection Hrun as <- <-. split; [exact Hinv|]. intros k. exists []. cbn.
+    rewrite app_nil_r. auto.
   - cbn [run] in Hrun. destruct (step s o) as [[s1 d]| |] eqn:Est; try discriminate.
     destruct (run s1 r) as [[s2 ds]| |] eqn:Er; try discriminate. injection Hrun as <- <-.
     destruct (asked o) as [bs|] eqn:Ea; [|rewrite step_fault in Est by exact Ea; discriminate].
-    destruct (step_spec s o bs Hinv Ea) as (s1' & d1 & Hst1 & Hi1 & Hs1 & Hm).
-    rewrite Est in Hst1. injection Hst1 as <- <-.
-    cbn [sized_when_drained] in Hsz. rewrite Est in Hsz. destruct Hsz as (Hdr & Hsz').
-    destruct (IH s1 s2 ds Hi1 (Hs1 Hs) Hsz' Er) as (bs' & Hstr & Hcat & Hi2).
-    exists (bs ++ bs'). cbn [stream]. rewrite Ea, Hstr. split; [reflexivity|]. split; [|exact Hi2].
-    cbn [concat]. rewrite concat_app, <- app_assoc, Hcat.
-    destruct o as [mem len|f| |n| |];
-      try (destruct Hm as (_ & _ & Hst); rewrite !app_assoc, (Hst Hs); reflexivity).
-    destruct Hm as (_ & Hp & ->). cbn [asked] in Ea. destruct (n <? 0); [discriminate|].
-    injection Ea as <-. rewrite Hp, Hdr. reflexivity.
+    cbn [config_when_drained] in Hsz. rewrite Est in Hsz. destruct Hsz as (Hdr & Hsz').
+    destruct (io_or_config o) as [Hio|Hio].
+    + destruct (step_io s o bs Hinv Hio Ea) as (s1' & d1 & Hst1 & Hi1 & Hc1 & Hf1 & Hd1 & _ & Htag & Hst & _).
+      rewrite Est in Hst1. injection Hst1 as <- <-.
+      destruct (IH s1 s2 ds Hi1 Hsz' Er) as (Hi2 & Hk). split; [exact Hi2|].
+      intros k. destruct (Hk k) as (bs' & Hstr & Hcat).
+      assert (Hcfg : (match o with OSetFunc b => (b, has_fd s) | OSetFd b => (has_func s, b) | _ => (has_func s, has_fd s) end)
+                     = (has_func s1, has_fd s1)).
+      { rewrite Hf1, Hd1. destruct o; try discriminate; reflexivity. }
+      exists ((if is_active k (has_func s) (has_fd s) then bs else []) ++ bs').
+      cbn [stream_to]. rewrite Hcfg, Ea, Hstr. split; [reflexivity|].
+      cbn [concat]. rewrite to_sink_app, <- app_assoc, Hcat.
+      assert (Hact1 : active s1 = active s) by (unfold active; rewrite Hf1, Hd1; reflexivity).
+      rewrite (to_sink_tagged k _ _ Htag), is_active_eq. unfold pend_to. rewrite Hact1.
+      destruct (osink_eqb (active s) (Some k)) eqn:E; [|reflexivity].
+      rewrite !app_assoc. f_equal. apply Hst. apply osink_eqb_eq in E. rewrite E. discriminate.
+    + destruct (step_config s o Hinv Hio) as (s1' & Hst1 & Hi1 & Hm); [rewrite Ea; discriminate|].
+      rewrite Est in Hst1. injection Hst1 as <- Hd0; subst d.
+      destruct (IH s1 s2 ds Hi1 Hsz' Er) as (Hi2 & Hk). split; [exact Hi2|].
+      intros k. destruct (Hk k) as (bs' & Hstr & Hcat).
+      assert (Hbs : bs = []).
+      { destruct o; try discriminate; cbn [asked] in Ea; try (injection Ea as <-; reflexivity).
+        destruct (n <? 0); [discriminate|injection Ea as <-; reflexivity]. }
+      subst bs.
+      assert (Hcfg : (match o with OSetFunc b => (b, has_fd s) | OSetFd b => (has_func s, b) | _ => (has_func s, has_fd s) end)
+                     = (has_func s1, has_fd s1)).
+      { destruct o; try contradiction; subst s1; reflexivity. }
+      exists bs'. cbn [stream_to]. rewrite Hcfg, Ea, Hstr.
+      split; [destruct (is_active k _ _); reflexivity|].
+      cbn [concat]. rewrite to_sink_app, to_sink_nil. cbn [app]. rewrite Hcat. f_equal.
+      (* what is pending for sink k is the same before and after the reconfiguration *)
+      unfold pend_to. destruct o as [| | |n|b|b]; try contradiction; subst s1.
+      * change (active (set_output_buffer s n)) with (active s).
+        cbn [set_output_buffer pending]. rewrite Hdr.
+        destruct (osink_eqb (active s) (Some k)); reflexivity.
+      * cbn [pending set_output_func].
+        destruct (osink_eqb (active (set_output_func s b)) (Some k)) eqn:E1,
+                 (osink_eqb (active s) (Some k)) eqn:E2; try reflexivity;
+          rewrite Hdr; try reflexivity;
+          intros Heq; rewrite Heq in E1; congruence.
+      * cbn [pending set_output_fd].
+        destruct (osink_eqb (active (set_output_fd s b)) (Some k)) eqn:E1,
+                 (osink_eqb (active s) (Some k)) eqn:E2; try reflexivity;
+          rewrite Hdr; try reflexivity;
+          intros Heq; rewrite Heq in E1; congruence.
 Qed.
 
 (* the syntactic condition implies the semantic one *)
-Lemma resize_after_flush_sound : forall ops s dr, inv s ->
-  (dr = true -> pending s = []) -> resize_after_flush dr ops = true -> sized_when_drained s ops.
+Lemma config_after_flush_sound : forall ops s dr, inv s ->
+  (dr = true -> pending s = []) -> config_after_flush dr ops = true -> config_when_drained s ops.
 Proof.
   induction ops as [|o r IH]; intros s dr Hinv Hdr Hsyn; [exact I|].
-  cbn [sized_when_drained]. split.
-  - destruct o; auto. cbn [resize_after_flush] in Hsyn. apply andb_prop in Hsyn. apply Hdr; tauto.
+  cbn [config_when_drained]. split.
+  - destruct o; auto; cbn [config_after_flush] in Hsyn; apply andb_prop in Hsyn;
+      try (intros _); apply Hdr; tauto.
   - destruct (step s o) as [[s1 d]| |] eqn:Est; auto.
     destruct (asked o) as [bs|] eqn:Ea; [|rewrite step_fault in Est by exact Ea; discriminate].
-    destruct (step_spec s o bs Hinv Ea) as (s1' & d1 & Hst1 & Hi1 & _ & Hm).
-    rewrite Est in Hst1. injection Hst1 as <- <-.
-    destruct o as [mem len|f| |n| |]; cbn [resize_after_flush] in Hsyn.
-    + apply (IH s1 false); auto. discriminate.
-    + apply (IH s1 false); auto. discriminate.
-    + apply (IH s1 true); auto. intros _. cbn [step] in Est. injection Est as Est.
-      apply flush_props in Est. tauto.
-    + apply andb_prop in Hsyn. apply (IH s1 true); try tauto.
-    + apply (IH s1 dr); auto. intros H. cbn [step] in Est. injection Est as <- _.
-      cbn [set_output_func pending]. auto.
-    + apply (IH s1 dr); auto. intros H. cbn [step] in Est. injection Est as <- _.
-      cbn [set_output_fd pending]. auto.
+    destruct (io_or_config o) as [Hio|Hio].
+    + destruct (step_io s o bs Hinv Hio Ea) as (s1' & d1 & Hst1 & Hi1 & _).
+      rewrite Est in Hst1. injection Hst1 as <- <-.
+      destruct o as [mem len|f| |n|b|b]; try discriminate; cbn [config_after_flush] in Hsyn.
+      * apply (IH s1 false); auto. discriminate.
+      * apply (IH s1 false); auto. discriminate.
+      * apply (IH s1 true); auto. intros _. cbn [step] in Est. injection Est as Est.
+        apply flush_props in Est. tauto.
+    + destruct (step_config s o Hinv Hio) as (s1' & Hst1 & Hi1 & Hm); [rewrite Ea; discriminate|].
+      rewrite Est in Hst1. injection Hst1 as <- Hd0; subst d.
+      destruct o as [mem len|f| |n|b|b]; try contradiction; cbn [config_after_flush] in Hsyn;
+        apply andb_prop in Hsyn; destruct Hsyn as (Hd & Hsyn); subst s1;
+        apply (IH _ true); auto.
 Qed.
 
-(* the unbuffered history: never anything pending, and it runs whenever the buffered one does *)
-Lemma unbuffered_run : forall ops s, inv s -> cap s = 0 -> has_sink s = true ->
-  forall bs, stream ops = Some bs ->
+(* the unbuffered history: never anything pending, it runs whenever the requests are well
+   formed, and every sink receives exactly its stream *)
+Lemma unbuffered_run : forall ops s, inv s -> cap s = 0 ->
+  (forall k, stream_to k (has_func s) (has_fd s) ops <> None) ->
   exists s' outs, run s (unbuffered ops) = Ok (s', outs) /\ pending s' = [] /\
-                  concat (concat outs) = bs.
+    forall k, stream_to k (has_func s) (has_fd s) ops = Some (to_sink k (concat outs)).
 Proof.
-  induction ops as [|o r IH]; intros s Hinv Hcap Hs bs Hstr.
-  - cbn in Hstr. injection Hstr as <-. exists s, []. cbn. destruct Hinv as (_ & Hn & _). auto.
-  - cbn [stream] in Hstr. destruct (asked o) as [a|] eqn:Ea; [|discriminate].
-    destruct (stream r) as [b|] eqn:Er; [|discriminate]. injection Hstr as <-.
+  induction ops as [|o r IH]; intros s Hinv Hcap Hstr.
+  - exists s, []. cbn. destruct Hinv as (_ & Hn & _). auto.
+  - assert (Hask : exists a, asked o = Some a).
+    { specialize (Hstr SFunc). cbn [stream_to] in Hstr. destruct (asked o) as [a|]; [eexists; reflexivity|].
+      destruct (match o with OSetFunc b => _ | OSetFd b => _ | _ => _ end). contradiction Hstr; reflexivity. }
+    destruct Hask as (a & Ea).
     set (o' := match o with OSetBuf _ => OSetBuf 0 | _ => o end).
     assert (Ea' : asked o' = Some a).
     { destruct o; try exact Ea. cbn [asked] in *. destruct (n <? 0); [discriminate|exact Ea]. }
-    destruct (step_spec s o' a Hinv Ea') as (s1 & d & Hst & Hi1 & Hs1 & Hm).
-    assert (Hc1 : cap s1 = 0 /\ concat d = a).
-    { destruct Hinv as (_ & Hn & _). specialize (Hn Hcap).
-      destruct o; cbn [o'] in Hm;
-        try (destruct Hm as (Hc & _ & Hcat); specialize (Hcat Hs); destruct Hi1 as (_ & Hn1 & _);
-             rewrite Hn, (Hn1 (eq_trans Hc Hcap)), app_nil_r in Hcat; cbn [app] in Hcat; split; [congruence|exact Hcat]).
-      destruct Hm as (Hc & _ & ->). cbn [asked] in Ea. destruct (n <? 0); [discriminate|].
-      injection Ea as <-. auto. }
-    destruct Hc1 as (Hc1 & Hd).
-    destruct (IH s1 Hi1 Hc1 (Hs1 Hs) b eq_refl) as (s' & outs & Hrun & Hp & Hcat).
+    assert (Hnext : exists s1 d, step s o' = Ok (s1, d) /\ inv s1 /\ cap s1 = 0 /\
+              (match o with OSetFunc b => (b, has_fd s) | OSetFd b => (has_func s, b) | _ => (has_func s, has_fd s) end)
+                = (has_func s1, has_fd s1) /\
+              forall k, to_sink k d = if is_active k (has_func s) (has_fd s) then a else []).
+    { destruct (io_or_config o') as [Hio|Hio].
+      - destruct (step_io s o' a Hinv Hio Ea') as (s1 & d & Hst & Hi1 & Hc1 & Hf1 & Hd1 & _ & Htag & Hcat & _).
+        exists s1, d. split; [exact Hst|]. split; [exact Hi1|]. split; [congruence|]. split.
+        { rewrite Hf1, Hd1. destruct o; try discriminate; reflexivity. }
+        intros k. rewrite (to_sink_tagged k _ _ Htag), is_active_eq.
+        destruct (osink_eqb (active s) (Some k)) eqn:E; [|reflexivity].
+        destruct Hinv as (_ & Hn & _). destruct Hi1 as (_ & Hn1 & _).
+        assert (Ha : active s <> None) by (apply osink_eqb_eq in E; rewrite E; discriminate).
+        specialize (Hcat Ha). rewrite (Hn Hcap), (Hn1 (eq_trans Hc1 Hcap)), app_nil_r in Hcat. exact Hcat.
+      - destruct (step_config s o' Hinv Hio) as (s1 & Hst & Hi1 & Hm); [rewrite Ea'; discriminate|].
+        exists s1, []. split; [exact Hst|]. split; [exact Hi1|].
+        assert (Ha : a = []).
+        { destruct o; try discriminate; cbn [asked] in Ea; try (injection Ea as <-; reflexivity).
+          destruct (n <? 0); [discriminate|injection Ea as <-; reflexivity]. }
+        subst a. destruct o as [| | |n|b|b]; try discriminate; cbn [o'] in Hm; subst s1;
+          (split; [try reflexivity; exact Hcap|split; [reflexivity|intros k; destruct (is_active k _ _); reflexivity]]). }
+    destruct Hnext as (s1 & d & Hst & Hi1 & Hc1 & Hcfg & Hd).
+    assert (Hstr1 : forall k, stream_to k (has_func s1) (has_fd s1) r <> None).
+    { intros k. specialize (Hstr k). cbn [stream_to] in Hstr. rewrite Hcfg, Ea in Hstr.
+      destruct (stream_to k (has_func s1) (has_fd s1) r); [discriminate|contradiction Hstr; reflexivity]. }
+    destruct (IH s1 Hi1 Hc1 Hstr1) as (s' & outs & Hrun & Hp & Hk).
     exists s', (d :: outs). cbn [unbuffered map run]. fold (unbuffered r). fold o'.
     rewrite Hst, Hrun. split; [reflexivity|]. split; [exact Hp|].
-    cbn [concat]. rewrite concat_app, Hd, Hcat. reflexivity.
+    intros k. cbn [stream_to]. rewrite Hcfg, Ea, (Hk k). cbn [concat]. rewrite to_sink_app, Hd. reflexivity.
 Qed.
 
 Theorem transparent ops func fd s' outs :
-  func || fd = true -> sized_when_drained (init func fd) ops ->
+  config_when_drained (init func fd) ops ->
   run (init func fd) ops = Ok (s', outs) ->
   exists s0 outs0,
     run (init func fd) (unbuffered ops) = Ok (s0, outs0) /\ pending s0 = [] /\
-    concat (concat outs) ++ pending s' = concat (concat outs0) /\
-    stream ops = Some (concat (concat outs0)).
+    forall k, to_sink k (concat outs) ++ pend_to k s' = to_sink k (concat outs0) /\
+              stream_to k func fd ops = Some (to_sink k (concat outs0)).
 Proof.
-  intros Hs Hsz Hrun.
+  intros Hsz Hrun.
   assert (Hinv : inv (init func fd)).
   { unfold inv, init; cbn [cap pending]. repeat split; auto; lia. }
-  destruct (stream_run ops _ _ _ Hinv Hs Hsz Hrun) as (bs & Hstr & Hcat & _).
-  destruct (unbuffered_run ops _ Hinv eq_refl Hs bs Hstr) as (s0 & outs0 & Hrun0 & Hp0 & Hcat0).
-  exists s0, outs0. cbn [init pending app] in Hcat. repeat split; auto; congruence.
+  destruct (stream_run ops _ _ _ Hinv Hsz Hrun) as (_ & Hk).
+  assert (Hstr : forall k, stream_to k (has_func (init func fd)) (has_fd (init func fd)) ops <> None).
+  { intros k. destruct (Hk k) as (bs & Hs & _). rewrite Hs. discriminate. }
+  destruct (unbuffered_run ops _ Hinv eq_refl Hstr) as (s0 & outs0 & Hrun0 & Hp0 & Hk0).
+  exists s0, outs0. split; [exact Hrun0|]. split; [exact Hp0|].
+  intros k. destruct (Hk k) as (bs & Hs & Hcat). specialize (Hk0 k).
+  cbn [init has_func has_fd] in *. rewrite Hs in Hk0. injection Hk0 as Hk0.
+  split; [|rewrite Hs, Hk0; reflexivity].
+  rewrite Hcat, <- Hk0. unfold pend_to. cbn [init pending]. destruct (osink_eqb _ _); reflexivity.
 Qed.
 
 (* ---------------- the checker ---------------- *)
@@ -412,148 +531,292 @@ Proof.
   apply Z.eqb_eq in E. subst b. rewrite (IH _ _ H). reflexivity.
 Qed.
 
-Lemma take_chunks_app : forall d cp rest, 0 <= cp -> (0 < cp -> Forall (chunk_ok cp) d) ->
-  take_chunks cp (concat d ++ rest) d = Some rest.
+Lemma take_chunks_app : forall d cp act rest, 0 <= cp -> (0 < cp -> Forall (chunk_ok cp) d) ->
+  tagged act d -> take_chunks cp act (bytes d ++ rest) d = Some rest.
 Proof.
-  induction d as [|c d IH]; intros cp rest Hnn Hall; [reflexivity|].
-  cbn [take_chunks concat].
-  assert (Hb : (cp =? 0) || (zlen c <=? cp) = true).
-  { destruct (cp =? 0) eqn:E; [reflexivity|]. cbn [orb].
-    destruct (Z.leb_spec (zlen c) cp) as [|Hgt]; [reflexivity|].
-    destruct (Z.ltb_spec 0 cp) as [Hpos|Hneg].
-    - specialize (Hall Hpos). inversion Hall as [|? ? Hc _]; subst. unfold chunk_ok in Hc. lia.
-    - lia. }
-  rewrite Hb, <- app_assoc, strip_prefix_app. apply IH; [exact Hnn|].
+  induction d as [|[t c] d IH]; intros cp act rest Hnn Hall Htag; [reflexivity|].
+  pose proof (Forall_inv Htag) as Ht. pose proof (Forall_inv_tail Htag) as Htag'. cbn [fst] in Ht.
+  cbn [take_chunks]. unfold bytes. cbn [map snd concat]. fold (bytes d).
+  assert (Hb : osink_eqb act (Some t) && ((cp =? 0) || (zlen c <=? cp)) = true).
+  { rewrite <- Ht, osink_eqb_refl. cbn [andb].
+    destruct (cp =? 0) eqn:E; [reflexivity|]. cbn [orb].
+    assert (Hpos : 0 < cp) by lia. specialize (Hall Hpos).
+    inversion Hall as [|? ? Hc _]; subst. unfold chunk_ok in Hc. cbn [snd] in Hc. lia. }
+  rewrite Hb, <- app_assoc, strip_prefix_app. apply IH; [exact Hnn| |exact Htag'].
   intros Hpos. specialize (Hall Hpos). inversion Hall; assumption.
 Qed.
 
-Lemma take_chunks_inv : forall d cp o rest, take_chunks cp o d = Some rest ->
-  o = concat d ++ rest /\ (0 < cp -> Forall (fun c => zlen c <= cp) d).
+Lemma take_chunks_inv : forall d cp act o rest, take_chunks cp act o d = Some rest ->
+  o = bytes d ++ rest /\ tagged act d /\ (0 < cp -> Forall (fun tc => zlen (snd tc) <= cp) d).
 Proof.
-  induction d as [|c d IH]; intros cp o rest H.
-  - cbn in H. injection H as <-. split; [reflexivity|constructor].
-  - cbn [take_chunks] in H. destruct ((cp =? 0) || (zlen c <=? cp)) eqn:Eb; [|discriminate].
+  induction d as [|[t c] d IH]; intros cp act o rest H.
+  - cbn in H. injection H as <-. split; [reflexivity|]. split; constructor.
+  - cbn [take_chunks] in H.
+    destruct (osink_eqb act (Some t) && ((cp =? 0) || (zlen c <=? cp))) eqn:Eb; [|discriminate].
+    apply andb_prop in Eb. destruct Eb as (Et & Eb). apply osink_eqb_eq in Et.
     destruct (strip_prefix c o) as [o'|] eqn:Es; [|discriminate].
-    apply strip_prefix_inv in Es. destruct (IH _ _ _ H) as (Ho' & Hall).
-    split; [cbn [concat]; rewrite <- app_assoc, <- Ho'; exact Es|].
-    intros Hpos. constructor; [|apply Hall; exact Hpos].
+    apply strip_prefix_inv in Es. destruct (IH _ _ _ _ H) as (Ho' & Htag & Hall).
+    split; [unfold bytes in *; cbn [map snd concat]; rewrite <- app_assoc, <- Ho'; exact Es|].
+    split; [constructor; [cbn [fst]; symmetry; exact Et|exact Htag]|].
+    intros Hpos. constructor; [|apply Hall; exact Hpos]. cbn [snd].
     destruct (cp =? 0) eqn:E; [lia|]. cbn [orb] in Eb. lia.
 Qed.
 
-Definition is_resize (o : op) : bool := match o with OSetBuf _ => true | _ => false end.
+(* the checker's state matches the model's: same size and sinks, outstanding = pending, and
+   nothing is pending while no sink is active (else the checker would have stopped) *)
+Definition ck_matches (k : ck) (s : obuf) : Prop :=
+  k_cap k = cap s /\ k_func k = has_func s /\ k_fd k = has_fd s /\ k_outst k = pending s /\
+  (active s = None -> pending s = []).
 
-Lemma check_step_nonresize k o d : is_resize o = false ->
+Lemma ck_active k s : ck_matches k s -> k_active k = active s.
+Proof. intros (_ & Hf & Hd & _). unfold k_active, active, active_of. rewrite Hf, Hd. reflexivity. Qed.
+
+Lemma check_step_io k o d : io_op o = true ->
   check_step k o d =
     match asked o with
     | None => None
     | Some bs =>
-      match take_chunks (k_cap k) (k_outst k ++ bs) d with
-      | None => None
-      | Some rest => if must_drain k o && negb (is_nil rest) then None
-                     else Some (mkCk (k_cap k) rest (k_forfeit k))
+      match k_active k with
+      | None => if is_nil d then (if is_nil bs then Some (k, false) else Some (forfeited k, true)) else None
+      | Some _ =>
+        match take_chunks (k_cap k) (k_active k) (k_outst k ++ bs) d with
+        | None => None
+        | Some rest => if must_drain k o && negb (is_nil rest) then None else Some (with_outst k rest, false)
+        end
       end
     end.
-Proof. destruct o; try reflexivity. discriminate. Qed.
+Proof. destruct o; try discriminate; reflexivity. Qed.
 
-(* the checker's state matches the model's: same size, outstanding = pending *)
-Definition ck_matches (k : ck) (s : obuf) : Prop := k_cap k = cap s /\ k_outst k = pending s.
-
-Theorem checker_accepts_run : forall ops s s' outs k, inv s -> has_sink s = true ->
-  ck_matches k s -> run s ops = Ok (s', outs) ->
-  exists k', check_from k ops outs = Some k' /\ ck_matches k' s'.
+(* one step of the model is accepted, and either checking stops or the states still match *)
+Lemma checker_accepts_step s o s1 d k : inv s -> ck_matches k s -> step s o = Ok (s1, d) ->
+  exists k1 stop, check_step k o d = Some (k1, stop) /\ (stop = false -> ck_matches k1 s1).
 Proof.
-  induction ops as [|o r IH]; intros s s' outs k Hinv Hs Hk Hrun.
-  - cbn in Hrun. injection Hrun as <- <-. exists k. split; [reflexivity|exact Hk].
+  intros Hinv Hk Est.
+  destruct (asked o) as [bs|] eqn:Ea; [|rewrite step_fault in Est by exact Ea; discriminate].
+  pose proof (ck_active k s Hk) as Hact. destruct Hk as (Hkc & Hkf & Hkd & Hko & Hkn).
+  pose proof (proj1 Hinv) as Hc0.
+  destruct (io_or_config o) as [Hio|Hio].
+  - destruct (step_io s o bs Hinv Hio Ea) as (s1' & d1 & Hst1 & Hi1 & Hc1 & Hf1 & Hd1 & Hall & Htag & Hcat & Hnone).
+    rewrite Est in Hst1. injection Hst1 as <- <-.
+    assert (Hact1 : active s1 = active s) by (unfold active; rewrite Hf1, Hd1; reflexivity).
+    rewrite check_step_io by exact Hio. rewrite Ea, Hact.
+    destruct (active s) as [t|] eqn:Eact.
+    + assert (Ha : Some t <> None) by discriminate. specialize (Hcat Ha).
+      rewrite Hko, Hkc, <- Hcat, take_chunks_app by (try exact Hall; try exact Htag; exact Hc0).
+      assert (Hdr : must_drain k o = true -> pending s1 = []).
+      { unfold must_drain. destruct Hi1 as (_ & Hn1 & _).
+        destruct o; try discriminate; try (intros H0; apply Hn1; lia).
+        intros _. cbn [step] in Est. injection Est as Est. apply flush_props in Est. tauto. }
+      destruct (must_drain k o) eqn:Em.
+      * rewrite (Hdr eq_refl). cbn [is_nil negb andb].
+        eexists _, false; split; [reflexivity|]. intros _. unfold ck_matches, with_outst; cbn [k_cap k_func k_fd k_outst].
+        rewrite (Hdr eq_refl), Hact1. repeat split; try congruence; try discriminate.
+      * cbn [andb]. eexists _, false; split; [reflexivity|]. intros _.
+        unfold ck_matches, with_outst; cbn [k_cap k_func k_fd k_outst]. rewrite Hact1.
+        repeat split; try congruence; try discriminate.
+    + (* no sink: nothing can have been delivered, and nothing is pending *)
+      assert (Hd : d = []).
+      { unfold tagged in Htag. destruct d as [|tc d']; [reflexivity|]. inversion Htag; discriminate. }
+      subst d. cbn [is_nil]. destruct bs as [|b bs'].
+      * cbn [is_nil]. eexists _, false; split; [reflexivity|]. intros _.
+        assert (Hp1 : pending s1 = []).
+        { destruct (Hnone eq_refl eq_refl) as [Hp| ->]; [rewrite Hp; apply Hkn; reflexivity|].
+          cbn [step] in Est. injection Est as Est. apply flush_props in Est. tauto. }
+        unfold ck_matches. rewrite Hp1. repeat split; try congruence.
+        rewrite Hko. apply Hkn; reflexivity.
+      * cbn [is_nil]. eexists _, true; split; [reflexivity|]. discriminate.
+  - destruct (step_config s o Hinv Hio) as (s1' & Hst1 & Hi1 & Hm); [rewrite Ea; discriminate|].
+    rewrite Est in Hst1. injection Hst1 as <- Hd0; subst d.
+    destruct o as [mem len|f| |n|b|b]; try contradiction; subst s1.
+    + cbn [asked] in Ea. destruct (n <? 0) eqn:En; [discriminate|].
+      unfold check_step. cbn [is_nil andb]. assert (H0 : (0 <=? n) = true) by lia. rewrite H0.
+      eexists _, false; split; [reflexivity|]. intros _.
+      unfold ck_matches, set_output_buffer; cbn. repeat split; congruence.
+    + unfold check_step. cbn [take_chunks].
+      set (k' := mkCk (k_cap k) b (k_fd k) (k_outst k) (k_forfeit k)).
+      assert (Hact' : k_active k' = active (set_output_func s b)).
+      { unfold k_active, active, k', set_output_func; cbn. rewrite Hkd. reflexivity. }
+      destruct (osink_eqb (k_active k) (k_active k') || is_nil (k_outst k)) eqn:Ec.
+      * exists k', false. split; [reflexivity|]. intros _.
+        unfold ck_matches, k', set_output_func; cbn [k_cap k_func k_fd k_outst cap has_func has_fd pending].
+        repeat split; try congruence.
+        intros Hnone'. apply orb_prop in Ec. destruct Ec as [Ec|Ec].
+        -- apply osink_eqb_eq in Ec. apply Hkn. rewrite <- Hact, Ec, Hact'. exact Hnone'.
+        -- rewrite <- Hko. destruct (k_outst k); [reflexivity|discriminate].
+      * exists (forfeited k'), true. split; [reflexivity|discriminate].
+    + unfold check_step. cbn [take_chunks].
+      set (k' := mkCk (k_cap k) (k_func k) b (k_outst k) (k_forfeit k)).
+      assert (Hact' : k_active k' = active (set_output_fd s b)).
+      { unfold k_active, active, k', set_output_fd; cbn. rewrite Hkf. reflexivity. }
+      destruct (osink_eqb (k_active k) (k_active k') || is_nil (k_outst k)) eqn:Ec.
+      * exists k', false. split; [reflexivity|]. intros _.
+        unfold ck_matches, k', set_output_fd; cbn [k_cap k_func k_fd k_outst cap has_func has_fd pending].
+        repeat split; try congruence.
+        intros Hnone'. apply orb_prop in Ec. destruct Ec as [Ec|Ec].
+        -- apply osink_eqb_eq in Ec. apply Hkn. rewrite <- Hact, Ec, Hact'. exact Hnone'.
+        -- rewrite <- Hko. destruct (k_outst k); [reflexivity|discriminate].
+      * exists (forfeited k'), true. split; [reflexivity|discriminate].
+Qed.
+
+Theorem checker_accepts_run : forall ops s s' outs k, inv s ->
+  ck_matches k s -> run s ops = Ok (s', outs) ->
+  exists k', check_from k ops outs = Some k'.
+Proof.
+  induction ops as [|o r IH]; intros s s' outs k Hinv Hk Hrun.
+  - cbn in Hrun. injection Hrun as <- <-. exists k. reflexivity.
   - cbn [run] in Hrun. destruct (step s o) as [[s1 d]| |] eqn:Est; try discriminate.
     destruct (run s1 r) as [[s2 ds]| |] eqn:Er; try discriminate. injection Hrun as <- <-.
-    destruct (asked o) as [bs|] eqn:Ea; [|rewrite step_fault in Est by exact Ea; discriminate].
-    destruct (step_spec s o bs Hinv Ea) as (s1' & d1 & Hst1 & Hi1 & Hs1 & Hm).
-    rewrite Est in Hst1. injection Hst1 as <- <-.
-    destruct Hk as (Hkc & Hko). pose proof (proj1 Hinv) as Hc0.
-    assert (Hstep : exists k1, check_step k o d = Some k1 /\ ck_matches k1 s1).
-    { destruct (is_resize o) eqn:Eo.
-      - destruct o as [mem len|f| |n| |]; try discriminate.
-        destruct Hm as (Hc & Hp & ->). cbn [asked] in Ea. destruct (n <? 0) eqn:En; [discriminate|].
-        unfold check_step. cbn [is_nil andb]. assert (H0 : (0 <=? n) = true) by lia. rewrite H0.
-        eexists; split; [reflexivity|]. split; cbn [k_cap k_outst]; [lia|congruence].
-      - assert (Hm' : cap s1 = cap s /\ (0 < cap s -> Forall (chunk_ok (cap s)) d) /\
-                      (has_sink s = true -> concat d ++ pending s1 = pending s ++ bs)).
-        { destruct o; try exact Hm. discriminate. }
-        destruct Hm' as (Hc & Hall & Hcat). specialize (Hcat Hs).
-        assert (Hdr : must_drain k o = true -> pending s1 = []).
-        { unfold must_drain. destruct Hi1 as (_ & Hn1 & _).
-          destruct o; try (intros H0; apply Hn1; lia).
-          intros _. cbn [step] in Est. injection Est as Est. apply flush_props in Est. tauto. }
-        rewrite check_step_nonresize by exact Eo.
-        rewrite Ea, Hko, Hkc, <- Hcat, take_chunks_app by (try exact Hall; exact Hc0).
-        destruct (must_drain k o) eqn:Em.
-        + rewrite (Hdr eq_refl). cbn [is_nil negb andb].
-          eexists; split; [reflexivity|]. split; cbn [k_cap k_outst]; [lia|symmetry; exact (Hdr eq_refl)].
-        + cbn [andb]. eexists; split; [reflexivity|]. split; cbn [k_cap k_outst]; [lia|reflexivity]. }
-    destruct Hstep as (k1 & Hck & Hk1).
-    destruct (IH s1 s2 ds k1 Hi1 (Hs1 Hs) Hk1 Er) as (k' & Hcf & Hk').
-    exists k'. cbn [check_from]. rewrite Hck. auto.
+    destruct (checker_accepts_step s o s1 d k Hinv Hk Est) as (k1 & stop & Hck & Hm).
+    cbn [check_from]. rewrite Hck. destruct stop; [exists k1; reflexivity|].
+    assert (Hi1 : inv s1).
+    { destruct (terminates s o Hinv) as (H & _).
+      destruct (asked o) eqn:Ea; [|rewrite step_fault in Est by exact Ea; discriminate].
+      destruct H as (s1' & d' & Hst & Hi); [discriminate|]. rewrite Est in Hst. injection Hst as <- <-. exact Hi. }
+    apply (IH s1 s2 ds k1 Hi1 (Hm eq_refl) Er).
 Qed.
 
 Theorem checker_accepts_model ops func fd s' outs :
-  run (init func fd) ops = Ok (s', outs) -> check (func || fd) ops outs = true.
+  run (init func fd) ops = Ok (s', outs) -> check func fd ops outs = true.
 Proof.
-  intros Hrun. unfold check. destruct (func || fd) eqn:Hs; [|reflexivity].
-  destruct (checker_accepts_run ops (init func fd) s' outs (mkCk 0 [] false)) as (k' & Hc & _); auto.
+  intros Hrun. unfold check.
+  destruct (checker_accepts_run ops (init func fd) s' outs (mkCk 0 func fd [] false)) as (k' & Hc); auto.
   - unfold inv, init; cbn [cap pending]. repeat split; auto; lia.
-  - split; reflexivity.
+  - unfold ck_matches, init; cbn. repeat split; reflexivity.
   - rewrite Hc. reflexivity.
 Qed.
 
-(* what acceptance means: whatever passes the checker without forfeit delivered exactly
-   the unbuffered stream, in order, up to the bytes still outstanding; every chunk
-   respected the size in force; nothing was outstanding after a flush *)
-Theorem checker_sound : forall ops outs k k', check_from k ops outs = Some k' ->
-  k_forfeit k' = false ->
-  exists bs, stream ops = Some bs /\ k_outst k ++ bs = concat (concat outs) ++ k_outst k'.
+(* what acceptance means: whatever passes the checker without forfeit delivered to every sink
+   exactly that sink's unbuffered stream, in order, up to the bytes still outstanding (which
+   belong to the active sink); every chunk respected the size in force and went to the active
+   sink; nothing was outstanding after a flush *)
+Definition outst_to (snk : sink) (k : ck) : list byte :=
+  if osink_eqb (k_active k) (Some snk) then k_outst k else [].
+
+Lemma check_step_forfeit_mono k o d k1 stop : check_step k o d = Some (k1, stop) ->
+  k_forfeit k1 = false -> k_forfeit k = false /\ stop = false.
+Proof.
+  unfold check_step. intros H Hf.
+  destruct o as [mem len|f| |n|b|b].
+  1-3: (destruct (asked _) as [bs|]; [|discriminate]; destruct (k_active k);
+        [destruct (take_chunks _ _ _ _); [|discriminate]; destruct (_ && _); [discriminate|];
+         injection H as <- <-; auto
+        |destruct (is_nil d); [|discriminate]; destruct (is_nil bs); injection H as <- <-; auto; discriminate]).
+  - destruct (is_nil d && (0 <=? n)); [|discriminate]. injection H as <- <-.
+    cbn [k_forfeit] in Hf. apply orb_false_iff in Hf. tauto.
+  - destruct (take_chunks _ _ _ _); [|discriminate].
+    destruct (_ || _); injection H as <- <-; auto; discriminate.
+  - destruct (take_chunks _ _ _ _); [|discriminate].
+    destruct (_ || _); injection H as <- <-; auto; discriminate.
+Qed.
+
+Lemma check_from_forfeit_mono : forall ops outs k k', check_from k ops outs = Some k' ->
+  k_forfeit k' = false -> k_forfeit k = false.
 Proof.
   induction ops as [|o r IH]; intros outs k k' Hc Hf.
+  - destruct outs; [|discriminate]. cbn in Hc. injection Hc as <-. exact Hf.
+  - destruct outs as [|d ds]; [discriminate|]. cbn [check_from] in Hc.
+    destruct (check_step k o d) as [[k1 stop]|] eqn:Es; [|discriminate].
+    destruct stop.
+    + injection Hc as <-. apply (check_step_forfeit_mono _ _ _ _ _ Es) in Hf. destruct Hf; discriminate.
+    + specialize (IH _ _ _ Hc Hf). apply (check_step_forfeit_mono _ _ _ _ _ Es IH).
+Qed.
+
+Theorem checker_sound : forall ops outs k k', check_from k ops outs = Some k' ->
+  k_forfeit k' = false ->
+  forall snk, exists bs, stream_to snk (k_func k) (k_fd k) ops = Some bs /\
+    outst_to snk k ++ bs = to_sink snk (concat outs) ++ outst_to snk k'.
+Proof.
+  induction ops as [|o r IH]; intros outs k k' Hc Hf snk.
   - destruct outs; [|discriminate]. cbn in Hc. injection Hc as <-. exists []. cbn. split; [reflexivity|].
     apply app_nil_r.
   - destruct outs as [|d ds]; [discriminate|]. cbn [check_from] in Hc.
-    destruct (check_step k o d) as [k1|] eqn:Es; [|discriminate].
-    destruct (IH ds k1 k' Hc Hf) as (bs' & Hstr & Hcat).
-    assert (Hmono : forall ops outs k k', check_from k ops outs = Some k' -> k_forfeit k' = false -> k_forfeit k = false).
-    { clear. induction ops as [|o r IH]; intros outs k k' Hc Hf.
-      - destruct outs; [|discriminate]. cbn in Hc. injection Hc as <-. exact Hf.
-      - destruct outs as [|d ds]; [discriminate|]. cbn [check_from] in Hc.
-        destruct (check_step k o d) as [k1|] eqn:Es; [|discriminate].
-        specialize (IH _ _ _ Hc Hf). unfold check_step in Es.
-        destruct o; try (destruct (asked _); [|discriminate]; destruct (take_chunks _ _ _); [|discriminate];
-                         destruct (_ && _); [discriminate|]; injection Es as <-; exact IH).
-        destruct (is_nil d && (0 <=? n)); [|discriminate]. injection Es as <-.
-        cbn [k_forfeit] in IH. apply orb_false_iff in IH. tauto. }
-    pose proof (Hmono _ _ _ _ Hc Hf) as Hf1.
+    destruct (check_step k o d) as [[k1 stop]|] eqn:Es; [|discriminate].
+    destruct stop.
+    { injection Hc as <-. apply (check_step_forfeit_mono _ _ _ _ _ Es) in Hf. destruct Hf; discriminate. }
+    pose proof (check_from_forfeit_mono _ _ _ _ Hc Hf) as Hf1.
+    destruct (IH ds k1 k' Hc Hf snk) as (bs' & Hstr & Hcat).
     unfold check_step in Es.
-    destruct o as [mem len|f| |n| |];
-      try (destruct (asked _) as [bs|] eqn:Ea; [|discriminate];
-           destruct (take_chunks _ _ _) as [rest|] eqn:Et; [|discriminate];
-           destruct (_ && _); [discriminate|]; injection Es as <-;
-           apply take_chunks_inv in Et; destruct Et as (Et & _);
-           exists (bs ++ bs'); cbn [stream]; rewrite Ea, Hstr; split; [reflexivity|];
-           cbn [k_outst concat] in *; rewrite concat_app, app_assoc, Et, <- !app_assoc, Hcat; reflexivity).
-    destruct (is_nil d && (0 <=? n)) eqn:Eb; [|discriminate]. injection Es as <-.
-    cbn [k_forfeit k_outst] in *. apply orb_false_iff in Hf1. destruct Hf1 as (_ & Hnil).
-    apply andb_prop in Eb. destruct Eb as (Ed & En).
-    destruct d; [|discriminate]. destruct (k_outst k); [|discriminate].
-    exists bs'. cbn [stream asked]. assert (Hn : (n <? 0) = false) by lia. rewrite Hn, Hstr.
-    split; [reflexivity|]. cbn [concat app] in *. exact Hcat.
+    destruct o as [mem len|f| |n|b|b].
+    1-3: (destruct (asked _) as [bs|] eqn:Ea; [|discriminate];
+          destruct (k_active k) as [t|] eqn:Eact;
+          [ destruct (take_chunks _ _ _ _) as [rest|] eqn:Et; [|discriminate];
+            destruct (_ && _); [discriminate|]; injection Es as <-;
+            apply take_chunks_inv in Et; destruct Et as (Et & Htag & _);
+            exists ((if is_active snk (k_func k) (k_fd k) then bs else []) ++ bs');
+            cbn [stream_to]; rewrite Ea; cbn [with_outst k_func k_fd] in Hstr; rewrite Hstr;
+            split; [reflexivity|];
+            cbn [concat]; rewrite to_sink_app, <- app_assoc, <- Hcat;
+            rewrite (to_sink_tagged snk _ _ Htag);
+            unfold outst_to, k_active, with_outst in *; cbn [k_func k_fd k_outst] in *;
+            unfold is_active; rewrite Eact;
+            destruct (osink_eqb (Some t) (Some snk)); [rewrite !app_assoc, Et; reflexivity|reflexivity]
+          | destruct (is_nil d) eqn:Ed; [|discriminate]; destruct d; [|discriminate];
+            destruct (is_nil bs) eqn:Eb; [|injection Es as <-; discriminate];
+            destruct bs; [|discriminate]; injection Es as <-;
+            exists bs'; cbn [stream_to]; rewrite Ea, Hstr;
+            split; [destruct (is_active snk _ _); reflexivity|];
+            cbn [concat]; rewrite to_sink_app, to_sink_nil; exact Hcat ]).
+    + destruct (is_nil d && (0 <=? n)) eqn:Eb; [|discriminate]. injection Es as <-.
+      cbn [k_forfeit] in Hf1. apply orb_false_iff in Hf1. destruct Hf1 as (_ & Hnil).
+      apply andb_prop in Eb. destruct Eb as (Ed & En).
+      destruct d; [|discriminate]. destruct (k_outst k) eqn:Eo; [|discriminate].
+      exists bs'. cbn [stream_to asked]. assert (Hn : (n <? 0) = false) by lia.
+      cbn [k_func k_fd] in Hstr. rewrite Hn, Hstr.
+      split; [destruct (is_active snk _ _); reflexivity|].
+      cbn [concat]. rewrite to_sink_app, to_sink_nil. cbn [app]. rewrite <- Hcat.
+      unfold outst_to, k_active; cbn [k_func k_fd k_outst]. rewrite Eo.
+      destruct (osink_eqb _ _); reflexivity.
+    + cbn [asked]. destruct (take_chunks _ _ _ d) as [rest|] eqn:Et; [|discriminate].
+      apply take_chunks_inv in Et. destruct Et as (Et & Htag & _).
+      destruct (osink_eqb (k_active k) (k_active (mkCk (k_cap k) b (k_fd k) rest (k_forfeit k))) || is_nil rest) eqn:Ec;
+        [|discriminate Es]. injection Es as <-.
+      exists bs'. cbn [stream_to asked]. cbn [k_func k_fd] in Hstr. rewrite Hstr.
+      split; [destruct (is_active snk _ _); reflexivity|].
+      cbn [concat]. rewrite to_sink_app, <- app_assoc, <- Hcat.
+      rewrite (to_sink_tagged snk _ _ Htag). unfold outst_to. cbn [k_outst].
+      apply orb_prop in Ec. destruct Ec as [Ec|Ec].
+      * apply osink_eqb_eq in Ec. rewrite <- Ec.
+        destruct (osink_eqb (k_active k) (Some snk)); [rewrite Et, <- app_assoc; reflexivity|reflexivity].
+      * destruct rest; [|discriminate]. rewrite app_nil_r in Et.
+        destruct (osink_eqb (k_active k) (Some snk)), (osink_eqb _ (Some snk));
+          rewrite ?Et, ?app_nil_r; reflexivity.
+    + cbn [asked]. destruct (take_chunks _ _ _ d) as [rest|] eqn:Et; [|discriminate].
+      apply take_chunks_inv in Et. destruct Et as (Et & Htag & _).
+      destruct (osink_eqb (k_active k) (k_active (mkCk (k_cap k) (k_func k) b rest (k_forfeit k))) || is_nil rest) eqn:Ec;
+        [|discriminate Es]. injection Es as <-.
+      exists bs'. cbn [stream_to asked]. cbn [k_func k_fd] in Hstr. rewrite Hstr.
+      split; [destruct (is_active snk _ _); reflexivity|].
+      cbn [concat]. rewrite to_sink_app, <- app_assoc, <- Hcat.
+      rewrite (to_sink_tagged snk _ _ Htag). unfold outst_to. cbn [k_outst].
+      apply orb_prop in Ec. destruct Ec as [Ec|Ec].
+      * apply osink_eqb_eq in Ec. rewrite <- Ec.
+        destruct (osink_eqb (k_active k) (Some snk)); [rewrite Et, <- app_assoc; reflexivity|reflexivity].
+      * destruct rest; [|discriminate]. rewrite app_nil_r in Et.
+        destruct (osink_eqb (k_active k) (Some snk)), (osink_eqb _ (Some snk));
+          rewrite ?Et, ?app_nil_r; reflexivity.
 Qed.
 
 (* ---------------- non-vacuity ---------------- *)
 
-(* buffer of 3, writes of 2, 5 (straddling twice), an empty one, a flush *)
+(* function AND descriptor set, buffer of 3, writes of 2 (NUL-terminated, len 0) and 5 bytes
+   (straddling the buffer end twice), an empty formatted write, a flush; then the function is
+   removed while nothing is pending and the descriptor takes over.  The checker accepts the
+   run, rejects it when the last function chunk is dropped, and rejects it when the flushes of
+   the first part go to the descriptor instead of the function. *)
 Example nonvacuous :
-  let ops := [OSetBuf 3; OWrite [97; 98; 0] 0; OWrite [99; 100; 101; 102; 103] 5; OWritef []; OFlush] in
-  run (init true false) ops =
-    Ok (mkOB 3 [] true false, [[]; []; [[97; 98; 99]; [100; 101; 102]]; []; [[103]]]) /\
-  stream ops = Some [97; 98; 99; 100; 101; 102; 103] /\
-  sized_when_drained (init true false) ops /\
-  check true ops [[]; []; [[97; 98; 99]; [100; 101; 102]]; []; [[103]]] = true /\
-  check true ops [[]; []; [[97; 98; 99]; [100; 101; 102]]; []; []] = false.
-Proof. vm_compute. repeat split; reflexivity. Qed.
+  let ops := [OSetBuf 3; OWrite [97; 98; 0] 0; OWrite [99; 100; 101; 102; 103] 5; OWritef []; OFlush;
+              OSetFunc false; OWrite [104; 105] 2; OFlush] in
+  let good := [[]; []; [(SFunc, [97; 98; 99]); (SFunc, [100; 101; 102])]; []; [(SFunc, [103])];
+               []; []; [(SFd, [104; 105])]] in
+  run (init true true) ops = Ok (mkOB 3 [] false true, good) /\
+  stream_to SFunc true true ops = Some [97; 98; 99; 100; 101; 102; 103] /\
+  stream_to SFd true true ops = Some [104; 105] /\
+  config_when_drained (init true true) ops /\
+  check true true ops good = true /\
+  check true true ops [[]; []; [(SFunc, [97; 98; 99]); (SFunc, [100; 101; 102])]; []; [];
+                       []; []; [(SFd, [104; 105])]] = false /\
+  check true true ops [[]; []; [(SFd, [97; 98; 99]); (SFd, [100; 101; 102])]; []; [(SFd, [103])];
+                       []; []; [(SFd, [104; 105])]] = false.
+Proof.
+  vm_compute. repeat split; try reflexivity; intros H; try reflexivity; exfalso; apply H; reflexivity.
+Qed.
